@@ -485,7 +485,7 @@ func finish(o *hx.Out, h *H, kindKey string) {
 		// each property reports its own verdicts: C04 the fence/head ones, C03 the ack/truncate ones
 		mine := strings.HasPrefix(sig, "fenced:") || strings.HasPrefix(sig, "newterm:")
 		if *focus == "c03" {
-			mine = strings.HasPrefix(sig, "ack:") || strings.HasPrefix(sig, "truncate:")
+			mine = strings.HasPrefix(sig, "ack:") || strings.HasPrefix(sig, "truncate:") || strings.HasPrefix(sig, "attach:")
 		}
 		if !mine {
 			o.Count("other-property-verdict:" + sig)
@@ -650,6 +650,12 @@ func runTrunc(o *hx.Out, terms []int64, lt, lo, ft, fo int64) {
 		tl = strings.Join(ts, ",")
 	}
 	in := fmt.Sprintf("%s %d:%d %d:%d", tl, lt, lo, ft, fo)
+	// the specification of the decision, evaluated on the implementation's answer
+	if *focus == "c03" && strings.HasPrefix(res, "none") && !headConsistent(mkLog(terms...), ft, fo) {
+		o.Violation("attach:no-truncate-although-head-not-in-leader-log", fmt.Sprintf(
+			"truncateFollowerIfNeeded(leader terms [%s], leader head (%d,%d), follower head (%d,%d)) sent no Truncate although the leader holds no entry of term %d at an offset >= %d",
+			tl, lt, lo, ft, fo, ft, fo))
+	}
 	o.Case("trunc", in, res, in)
 	o.Count("trunc:" + strings.SplitN(res, ":", 2)[0])
 }
@@ -718,7 +724,21 @@ func main() {
 		steps := 25 + r.Intn(30)
 		runGenerated(o, r.Fork(), steps)
 	}
+	// decisions at the boundary of the two "no truncation needed" tests
+	runTrunc(o, []int64{1, 1, 3, 3}, 3, 3, 2, 1)
+	runTrunc(o, []int64{1, 1, 3, 3}, 3, 3, 1, 1)
+	runTrunc(o, []int64{1, 1, 3, 3}, 3, 3, 1, 2)
+	runTrunc(o, []int64{1, 1, 3, 3}, 3, 3, 2, 5)
+	runTrunc(o, []int64{2, 2}, 2, 1, 0, 0)
 	for i := 0; i < f.N/2+10; i++ {
 		genTrunc(o, r)
+	}
+	// leader attaches a real follower: decision + replication end to end
+	if *focus == "c03" {
+		runAttach(o, mkLog(1, 2), mkLog(1, 1, 3, 3), 4)
+		runAttach(o, mkLog(1), mkLog(1, 1, 3), 4)
+		runAttach(o, mkLog(1, 1, 1), mkLog(1, 1, 3), 4)
+		runAttach(o, nil, mkLog(1, 2), 4)
+		runAttach(o, mkLog(1, 1, 2, 2), mkLog(1, 1, 2, 2, 2, 5), 6)
 	}
 }
